@@ -27,6 +27,15 @@ def new_exec(env, d, backend=None, conf=None):
     x = Exec(p['exe'], p['lib'], conf, env['ck'], env=C17_ENV, stderr=f'{d}/stderr{n}.log', trace=f'{d}/trace{n}.jsonl'); x.timeout = TIMEOUT
     return x
 
+TMPL_VALUE = {'bytes-value', 'wrong-size', 'null-value', 'ulong-value', 'date', 'mechanism-list'}
+def key_class(cls):
+    """input class as it appears in a finding's KEY: template operators are folded into value-level / structure-level hostility
+    (the operator itself stays in the witness and in the coverage counts)"""
+    out = []
+    for t in cls.split('+'):
+        if t.startswith('tmpl=') and not t.startswith('tmpl=get='): t = 'tmpl=hostile-values' if t[5:] in TMPL_VALUE else 'tmpl=hostile-structure'
+        if t not in out: out.append(t)
+    return '+'.join(out)
 def ubsan_class(msg):
     """the UBSan categories that ARE one of the failures the property names; everything else is an observation"""
     m = msg.lower()
@@ -102,10 +111,10 @@ class Monitor:
         s.reqs.append(req); r = s.raw(req); rv = r.get('rv', -1)
         if 'error' in r and rv == -1: s.part.inconc('harness: executor rejected a request: %s %s' % (r['error'], json.dumps(req)[:300])); r['rvname'] = 'HARNESS_ERROR'; return r
         r['rvname'] = s.ck.rv(rv)
-        if r['rvname'].startswith('CKR_?'): s.part.violation(f"{req['fn']}|{cls}|invalid-rv", 'a return value that is not a CKR_* constant', {'rv': rv, 'request': clip(req)})
+        if r['rvname'].startswith('CKR_?'): s.part.violation(f"{req['fn']}|{key_class(cls)}|invalid-rv", 'a return value that is not a CKR_* constant', {'rv': rv, 'request': clip(req)})
         for msg, loc in s.new_ubsan():
             c = ubsan_class(msg)
-            if c: s.part.violation(f"{req['fn']}|{cls}|ubsan:{c}@{loc}", 'UBSan: ' + msg[:160], {'request': clip(req), 'location': loc})
+            if c: s.part.violation(f"{req['fn']}|{key_class(cls)}|ubsan:{c}@{loc}", 'UBSan: ' + msg[:160], {'request': clip(req), 'location': loc})
             elif not loc.startswith('/verif/exec'): s.part.observe('ubsan-observation ' + loc, re.sub(r'0x[0-9a-f]+', '0x..', msg)[:140])
         return r
 
@@ -236,7 +245,7 @@ def canonical_death(env, e, fn, tags, prefix, base, edits, untagged='well-formed
                 if x: x.kill()
                 shutil.rmtree(d, ignore_errors=True)
     cls = '+'.join(tags) if tags else untagged
-    return f'{fn}|{cls}|{sig}', sig
+    return f'{fn}|{key_class(cls)}|{sig}', sig
 
 def run_sequence(env, seed, part, keep=None):
     """one hostile sequence in its own executor on its own clone of the golden directory"""
@@ -270,7 +279,7 @@ def run_sequence(env, seed, part, keep=None):
     except Hang as hg:
         part.count('hangs'); x.kill()
         if str(hg) == 'busy': part.observe('long computation (CPU-busy past the %d s watchdog; not a hang)' % TIMEOUT, {'fn': cur[0], 'tags': cur[1], 'seed': seed}); part.count('busy_timeouts')
-        elif keep is None and rerun_hangs(env, seed): part.violation(f'{cur[0]}|{"+".join(cur[1]) or "well-formed"}|hang', 'a call did not return within %d s (reproduced)' % TIMEOUT, {'mode': 'api', 'seed': seed, 'cfg': env['cfg'], 'backend': env['backend'], 'ncalls': env['ncalls'], 'request': clip(mon.reqs[-1])})
+        elif keep is None and rerun_hangs(env, seed): part.violation(f'{cur[0]}|{key_class("+".join(cur[1])) or "well-formed"}|hang', 'a call did not return within %d s (reproduced)' % TIMEOUT, {'mode': 'api', 'seed': seed, 'cfg': env['cfg'], 'backend': env['backend'], 'ncalls': env['ncalls'], 'request': clip(mon.reqs[-1])})
         else: part.inconc('hang not reproduced, seed %d' % seed)
     finally:
         x.kill()
@@ -581,13 +590,13 @@ def run_cells(env, family, cells, part, solo=False):
             alone = run_cells(env, family, [cells[i]], Part(), solo=True)
             if alone: fn, sig, wit = alone[0]; cls = tag
             else: cls = 'sequence-dependent:' + tag
-            part.violation(f'{fn}|{cls}|{sig}', f'the library terminated the host process inside {fn} ({sig.split("@")[0]})', wit)
+            part.violation(f'{fn}|{key_class(cls)}|{sig}', f'the library terminated the host process inside {fn} ({sig.split("@")[0]})', wit)
             part.count('deaths'); part.case((family, tag, detail.split(' ')[0])); part.count('grid_cells'); i += 1
         except Hang as hg:
             x.kill(); part.count('hangs')
             if str(hg) == 'busy': part.observe('long computation (CPU-busy past the %d s watchdog; not a hang)' % TIMEOUT, {'fn': (mon.reqs[-1] or {}).get('fn'), 'cell': detail}); part.count('busy_timeouts'); i += 1; continue
             if solo: return [((mon.reqs[-1] or {}).get('fn'), 'hang', {'mode': 'grid', 'family': family, 'cell': detail, 'request': clip(mon.reqs[-1])})]
-            part.violation(f'{(mon.reqs[-1] or {}).get("fn")}|{cur.tag if cur else tag}|hang', 'a call did not return within %d s (process idle)' % TIMEOUT, {'mode': 'grid', 'family': family, 'cell': detail, 'request': clip(mon.reqs[-1])}); i += 1
+            part.violation(f'{(mon.reqs[-1] or {}).get("fn")}|{key_class(cur.tag if cur else tag)}|hang', 'a call did not return within %d s (process idle)' % TIMEOUT, {'mode': 'grid', 'family': family, 'cell': detail, 'request': clip(mon.reqs[-1])}); i += 1
         finally: x.kill()
     shutil.rmtree(d, ignore_errors=True)
     return []
